@@ -51,10 +51,10 @@ type Report struct {
 }
 
 // New starts a report.
-func New(prop, tier, verifDir string) *Report {
+func New(prop, tier, verifDir string, start time.Time) *Report {
 	seed, _ := strconv.ParseInt(os.Getenv("VERIF_SEED"), 10, 64)
 	return &Report{Prop: prop, Tier: tier, Seed: seed, Analysed: map[string]int{}, rules: map[string]string{},
-		start: time.Now(), VerifDir: verifDir, Selftest: map[string]interface{}{}}
+		start: start, VerifDir: verifDir, Selftest: map[string]interface{}{}}
 }
 
 // Rule registers the text of a rule id (e.g. "C06/SIZE/data").
